@@ -524,6 +524,36 @@ fn mono_oracles(rep: &mut Report, site: &str, opname: &str, before: (&CView, u64
     }
 }
 
+/// `refute_records_announced` on the real replica: after `refute(m, inc)` has returned, a member that
+/// was in the view before the call is recorded at an incarnation >= inc, whatever health it had
+fn refute_classes(op: &Op, before: &CView, after: &CView) -> Vec<(String, String)> {
+    let mut out = vec![];
+    if let Op::Refute(_, m, inc) = op {
+        if let Some(b) = before[*m] {
+            let got = after[*m].map(|a| a.2);
+            if got.map_or(true, |g| g < *inc) {
+                out.push((
+                    "tensor_chain.gossip.refute/announced_incarnation_dropped".to_string(),
+                    format!(
+                        "refute(member {m}, incarnation {inc}) returned and member {m}, held as {}:{}:{} before the call, is recorded at incarnation {} afterwards",
+                        HL[b.0],
+                        b.1,
+                        b.2,
+                        got.map_or("- (forgotten)".to_string(), |g| g.to_string())
+                    ),
+                ));
+            }
+        }
+    }
+    out
+}
+
+fn refute_oracle(rep: &mut Report, op: &Op, before: &CView, after: &CView, hist: &dyn Fn() -> Value) {
+    for (class, what) in refute_classes(op, before, after) {
+        rep.violation_capped(&class, &what, hist());
+    }
+}
+
 fn gen_upd(r: &mut Rng, members: usize, maxv: u64) -> Upd {
     Upd {
         m: r.below(members as u64) as usize,
@@ -670,6 +700,9 @@ impl<'a> Lab<'a> {
         self.nops += 1;
         let at = format!("(step {}: `{}`)", self.nops, op.line());
         for (c, w) in mono_classes("tensor_chain.gossip", op.name(), (&before.0, before.1), (&after.0, after.1)) {
+            self.flag(&c, format!("{w} {at}"));
+        }
+        for (c, w) in refute_classes(op, &before.0, &after.0) {
             self.flag(&c, format!("{w} {at}"));
         }
         if let Op::Merge(_, b) = op {
@@ -1105,6 +1138,799 @@ fn unsorted_stream(rep: &mut Report, m: &mut Model, names: &[String], root: &Rng
     }
 }
 
+// ------------------------------------------------------------------ a refutation against old news
+//
+// `refute(m, n)` (the operation behind `GossipMessage::Alive`) and news about incarnations of m BELOW n
+// (stale suspicions, merged Degraded / Failed / Unknown states of an older incarnation, older
+// refutations, mark_healthy) commute: wherever the refutation sits among them, m ends Healthy at n
+// (Lean: refute_records_announced, refute_wins_over_stale_news, refute_and_stale_news_commute; the
+// manager: mgr_alive_records_announced, mgr_alive_wins_over_stale_news).  Streams `refute_vs_stale[.directed]`
+// (real LWWMembershipState replicas) and `mgr.alive_vs_stale[.directed]` (real GossipMembershipManagers):
+// a common setup that leaves the member in EVERY health state (merged or written by a local event), then
+// the same multiset of events handed to 2-4 replicas in different orders.  Oracles on the real objects:
+//   <site>/announced_incarnation_dropped              after refute / handle_alive (known member, within the
+//                                                     jump limit) the recorded incarnation is >= the announced one
+//   <site>/degraded_or_failed_at_refuted_incarnation  no step records a member Degraded / Failed at an
+//                                                     incarnation below one this replica has been told of
+//   <site>/replicas_diverge_on_event_order            replicas that got the same events in different orders
+//   (managers_diverge_on_message_order)               agree on the member's (health, incarnation)
+//   <site>/not_healthy_at_announced_incarnation_after_stale_news   ... and it is (Healthy, n)
+
+/// an event handed to a replica of a `refute_vs_stale` script
+#[derive(Clone, Debug, PartialEq)]
+enum LEv {
+    Merge(Vec<Upd>),
+    Suspect(usize, u64),
+    Fail(usize),
+    Refute(usize, u64),
+    MarkHealthy(usize),
+    Tick,
+    SyncTime(u64),
+}
+
+impl LEv {
+    fn op(&self, r: usize) -> Op {
+        match self {
+            LEv::Merge(b) => Op::Merge(r, b.clone()),
+            LEv::Suspect(m, i) => Op::Suspect(r, *m, *i),
+            LEv::Fail(m) => Op::Fail(r, *m),
+            LEv::Refute(m, i) => Op::Refute(r, *m, *i),
+            LEv::MarkHealthy(m) => Op::MarkHealthy(r, *m),
+            LEv::Tick => Op::Tick(r),
+            LEv::SyncTime(t) => Op::SyncTime(r, *t),
+        }
+    }
+    /// `StaleFor m n` of RefuteLemmas.lean: about m, only news of incarnations below n
+    fn stale_for(&self, m: usize, n: u64) -> bool {
+        match self {
+            LEv::Merge(b) => b.iter().all(|u| u.m != m || u.inc < n),
+            LEv::Suspect(k, i) | LEv::Refute(k, i) => *k != m || *i < n,
+            LEv::Fail(k) => *k != m,
+            LEv::MarkHealthy(_) | LEv::Tick | LEv::SyncTime(_) => true,
+        }
+    }
+}
+
+/// `setup` goes to every replica in this order; then replica r gets `events` in the order `orders[r]`
+#[derive(Clone, Debug)]
+struct RScript {
+    n: usize,
+    setup: Vec<LEv>,
+    events: Vec<LEv>,
+    orders: Vec<Vec<usize>>,
+}
+
+impl RScript {
+    fn with_events(&self, keep: &[usize]) -> RScript {
+        RScript {
+            n: self.n,
+            setup: self.setup.clone(),
+            events: keep.iter().map(|&i| self.events[i].clone()).collect(),
+            orders: self.orders.iter().map(|o| o.iter().filter_map(|i| keep.iter().position(|k| k == i)).collect()).collect(),
+        }
+    }
+    fn with_setup(&self, keep: &[usize]) -> RScript {
+        RScript { setup: keep.iter().map(|&i| self.setup[i].clone()).collect(), ..self.clone() }
+    }
+    fn only(&self, reps: &[usize]) -> RScript {
+        RScript { n: reps.len(), orders: reps.iter().map(|&r| self.orders[r].clone()).collect(), ..self.clone() }
+    }
+    fn seq(&self, r: usize) -> Vec<&LEv> {
+        self.setup.iter().chain(self.orders[r].iter().map(|&i| &self.events[i])).collect()
+    }
+}
+
+/// the refutations of a script that every other event is old news for: (member, incarnation)
+fn top_refutes<E>(events: &[E], as_refute: &dyn Fn(&E) -> Option<(usize, u64)>, stale: &dyn Fn(&E, usize, u64) -> bool) -> Vec<(usize, u64)> {
+    let mut out = vec![];
+    for (i, e) in events.iter().enumerate() {
+        if let Some((m, n)) = as_refute(e) {
+            if events.iter().enumerate().all(|(j, f)| j == i || stale(f, m, n)) {
+                out.push((m, n));
+            }
+        }
+    }
+    out
+}
+
+struct RRun {
+    viol: Vec<(String, String)>,
+    /// per replica: (model line, implementation answer)
+    lines: Vec<Vec<(String, String)>>,
+    views: Vec<(CView, u64)>,
+    hits: Vec<String>,
+    targets: usize,
+}
+
+fn reg_txt(e: Option<(usize, u64, u64)>) -> String {
+    e.map_or("-".to_string(), |e| format!("{}:{}:{}", HL[e.0], e.1, e.2))
+}
+
+/// run a `refute_vs_stale` script on fresh real replicas, with every oracle (no model in here)
+fn rrun(sc: &RScript, names: &[String]) -> RRun {
+    let site = "tensor_chain.gossip.refute";
+    let mut out = RRun { viol: vec![], lines: vec![vec![]; sc.n], views: vec![], hits: vec![], targets: 0 };
+    let flag = |viol: &mut Vec<(String, String)>, class: &str, what: String| {
+        if !viol.iter().any(|(c, _)| c == class) {
+            viol.push((class.to_string(), what));
+        }
+    };
+    let mut reps: Vec<LWWMembershipState> = (0..sc.n).map(|_| LWWMembershipState::new()).collect();
+    let mut after_setup: Vec<CView> = vec![];
+    for r in 0..sc.n {
+        let mut told: [Option<u64>; K] = [None; K];
+        for (k, ev) in sc.seq(r).into_iter().enumerate() {
+            if k == sc.setup.len() {
+                after_setup.push(cview(&reps[r], names));
+            }
+            let op = ev.op(r);
+            let before = (cview(&reps[r], names), reps[r].lamport_time());
+            let imp = apply_real(&mut reps, &op, names);
+            let after = (cview(&reps[r], names), reps[r].lamport_time());
+            let at = format!("(replica {r}, step {}: `{}`)", k + 1, op.line());
+            for (c, w) in mono_classes("tensor_chain.gossip", op.name(), (&before.0, before.1), (&after.0, after.1)) {
+                flag(&mut out.viol, &c, format!("{w} {at}"));
+            }
+            for (c, w) in refute_classes(&op, &before.0, &after.0) {
+                flag(&mut out.viol, &c, format!("{w} {at}"));
+            }
+            if let Op::Refute(_, m, i) = &op {
+                match before.0[*m] {
+                    Some(b) => {
+                        told[*m] = Some(told[*m].map_or(*i, |t| t.max(*i)));
+                        out.hits.push(format!("rvs.refute.on_{}{}", ["healthy", "degraded", "failed", "unknown"][b.0], if *i > b.2 { "" } else { ".not_higher" }));
+                    }
+                    None => out.hits.push("rvs.refute.on_absent".to_string()),
+                }
+            }
+            for m in 0..K {
+                if let (Some(t), Some(a)) = (told[m], after.0[m]) {
+                    if a.2 < t && (a.0 == 1 || a.0 == 2) && after.0[m] != before.0[m] {
+                        flag(
+                            &mut out.viol,
+                            &format!("{site}/degraded_or_failed_at_refuted_incarnation"),
+                            format!("replica {r} was told by refute() that member {m} announced incarnation {t}; it now records member {m} as {} (was {}) {at}", reg_txt(after.0[m]), reg_txt(before.0[m])),
+                        );
+                    }
+                }
+            }
+            out.lines[r].push((op.line(), imp));
+        }
+        if sc.seq(r).len() == sc.setup.len() {
+            after_setup.push(cview(&reps[r], names));
+        }
+        out.views.push((cview(&reps[r], names), reps[r].lamport_time()));
+    }
+    // the refutations every other event is old news for, on members every replica knew below that incarnation
+    let tops = top_refutes(&sc.events, &|e| if let LEv::Refute(m, n) = e { Some((*m, *n)) } else { None }, &|e, m, n| e.stale_for(m, n));
+    for (m, n) in tops {
+        if !(0..sc.n).all(|r| after_setup[r][m].is_some_and(|e| e.2 < n)) {
+            continue;
+        }
+        out.targets += 1;
+        let hi = |r: usize| out.views[r].0[m].map(|e| (e.0, e.2));
+        let mut diverged = false;
+        'pairs: for i in 0..sc.n {
+            for j in (i + 1)..sc.n {
+                if hi(i) != hi(j) {
+                    let w = format!(
+                        "replicas {i} and {j} started from the same view and were handed the same events (refute(member {m}, {n}) and news about incarnations of member {m} below {n}) in different orders; they record member {m} as {} and {}",
+                        reg_txt(out.views[i].0[m]),
+                        reg_txt(out.views[j].0[m])
+                    );
+                    flag(&mut out.viol, &format!("{site}/replicas_diverge_on_event_order"), w);
+                    diverged = true;
+                    break 'pairs;
+                }
+            }
+        }
+        let _ = diverged;
+        if let Some(r) = (0..sc.n).find(|&r| hi(r) != Some((0, n))) {
+            let w = format!(
+                "replica {r} held member {m} below incarnation {n}, got refute(member {m}, {n}) and otherwise only news about incarnations below {n}; it records member {m} as {} instead of Healthy at {n}",
+                reg_txt(out.views[r].0[m])
+            );
+            flag(&mut out.viol, &format!("{site}/not_healthy_at_announced_incarnation_after_stale_news"), w);
+        }
+    }
+    out
+}
+
+fn rfails(sc: &RScript, names: &[String], class: &str) -> bool {
+    rrun(sc, names).viol.iter().any(|(c, _)| c == class)
+}
+
+/// shrink a failing `refute_vs_stale` script (replicas, events, setup, batch entries) and report it
+fn rreport(rep: &mut Report, stream: &str, case: &str, sc: &RScript, names: &[String], class: &str) {
+    if rep.violations.iter().filter(|v| v["class"] == class).count() >= 4 {
+        return;
+    }
+    let mut cur = sc.clone();
+    'one: for i in 0..cur.n {
+        let cand = cur.only(&[i]);
+        if rfails(&cand, names, class) {
+            cur = cand;
+            break 'one;
+        }
+    }
+    if cur.n > 2 {
+        'two: for i in 0..cur.n {
+            for j in (i + 1)..cur.n {
+                let cand = cur.only(&[i, j]);
+                if rfails(&cand, names, class) {
+                    cur = cand;
+                    break 'two;
+                }
+            }
+        }
+    }
+    let idx: Vec<usize> = (0..cur.events.len()).collect();
+    let kept = shrink_list(&idx, &mut |keep: &[usize]| rfails(&cur.with_events(keep), names, class));
+    cur = cur.with_events(&kept);
+    let idx: Vec<usize> = (0..cur.setup.len()).collect();
+    let kept = shrink_list(&idx, &mut |keep: &[usize]| rfails(&cur.with_setup(keep), names, class));
+    cur = cur.with_setup(&kept);
+    for which in 0..2 {
+        let len = if which == 0 { cur.setup.len() } else { cur.events.len() };
+        for i in 0..len {
+            let ev = if which == 0 { cur.setup[i].clone() } else { cur.events[i].clone() };
+            if let LEv::Merge(b) = ev {
+                if b.len() > 1 {
+                    let put = |c: &RScript, nb: Vec<Upd>| {
+                        let mut c = c.clone();
+                        if which == 0 {
+                            c.setup[i] = LEv::Merge(nb);
+                        } else {
+                            c.events[i] = LEv::Merge(nb);
+                        }
+                        c
+                    };
+                    let kept = shrink_list(&b, &mut |nb: &[Upd]| rfails(&put(&cur, nb.to_vec()), names, class));
+                    cur = put(&cur, kept);
+                }
+            }
+        }
+    }
+    let run = rrun(&cur, names);
+    let what = run.viol.iter().find(|(c, _)| c == class).map(|(_, w)| w.clone()).unwrap_or_default();
+    let hist: Vec<Value> = (0..cur.n).map(|r| json!(run.lines[r].iter().map(|(l, a)| format!("{l}  ->  {a}")).collect::<Vec<_>>())).collect();
+    let views: Vec<String> = run.views.iter().map(|(v, c)| view_txt(*c, v)).collect();
+    rep.violation_capped(
+        class,
+        &what,
+        json!({"stream": stream, "case": case, "replicas": cur.n, "history_per_replica": hist, "final_views": views,
+               "steps_before_shrinking": sc.setup.len() + sc.events.len(), "replicas_before_shrinking": sc.n}),
+    );
+}
+
+/// one script: real replicas + oracles to the end, the model asked until the first disagreement
+fn rcase(rep: &mut Report, m: &mut Model, stream: &str, case: &str, sc: &RScript, names: &[String]) {
+    let run = rrun(sc, names);
+    m.ask("reset");
+    let mut live = true;
+    for r in 0..sc.n {
+        for (i, (line, imp)) in run.lines[r].iter().enumerate() {
+            if live {
+                let ans = m.ask(line);
+                live = rep.compare(stream, || json!({"case": case, "history": run.lines[r][..=i].iter().map(|x| x.0.clone()).collect::<Vec<_>>()}), imp, &ans);
+                if !live {
+                    rep.hit("rvs.real_only_after_divergence");
+                }
+            }
+        }
+    }
+    for h in &run.hits {
+        rep.hit(h);
+    }
+    rep.hit_n("rvs.members_checked_for_order_independence", run.targets as u64);
+    for (class, _) in &run.viol {
+        rreport(rep, stream, case, sc, names, class);
+    }
+    let key = format!("{case}|{}", (0..sc.n).map(|r| run.lines[r].iter().map(|x| x.0.clone()).collect::<Vec<_>>().join("/")).collect::<Vec<_>>().join("||"));
+    rep.case(stream, if run.targets > 0 { Some(&key) } else { None });
+}
+
+/// directed scripts, run before every random stream: the refutation reaches a replica that sees the
+/// member as Healthy (and as Degraded / Failed / Unknown), before / between / after the stale suspicion
+fn directed_refute(rep: &mut Report, m: &mut Model, names: &[String]) {
+    let stream = "refute_vs_stale.directed";
+    let mut cases: Vec<(String, RScript)> = vec![];
+    let base = |h: char| LEv::Merge(vec![up(1, h, 1, 0)]);
+    // the minimal histories
+    cases.push((
+        "refute_while_healthy_then_stale_suspect".into(),
+        RScript { n: 2, setup: vec![base('H')], events: vec![LEv::Refute(1, 1), LEv::Suspect(1, 0)], orders: vec![vec![0, 1], vec![1, 0]] },
+    ));
+    cases.push((
+        "refute_while_healthy_then_stale_failed_state".into(),
+        RScript { n: 2, setup: vec![base('H')], events: vec![LEv::Refute(1, 1), LEv::Merge(vec![up(1, 'F', 7, 0)])], orders: vec![vec![0, 1], vec![1, 0]] },
+    ));
+    cases.push((
+        "refute_while_healthy_then_stale_degraded_and_unknown_states".into(),
+        RScript {
+            n: 3,
+            setup: vec![base('H')],
+            events: vec![LEv::Refute(1, 1), LEv::Merge(vec![up(1, 'D', 9, 0)]), LEv::Merge(vec![up(1, 'U', 4, 0), up(1, 'D', 2, 0)])],
+            orders: vec![vec![0, 1, 2], vec![1, 0, 2], vec![2, 1, 0]],
+        },
+    ));
+    // every health the member can be seen in when the refutation arrives, as merged in and as written
+    // by a local event; refutation first / in the middle / last
+    let starts: Vec<(&str, Vec<LEv>)> = vec![
+        ("merged_healthy", vec![base('H')]),
+        ("merged_degraded", vec![base('D')]),
+        ("merged_failed", vec![base('F')]),
+        ("merged_unknown", vec![base('U')]),
+        ("suspected_locally", vec![base('H'), LEv::Suspect(1, 0)]),
+        ("failed_locally", vec![base('H'), LEv::Fail(1)]),
+        ("marked_healthy_locally", vec![base('F'), LEv::MarkHealthy(1)]),
+        ("suspected_then_marked_healthy", vec![base('U'), LEv::Suspect(1, 0), LEv::MarkHealthy(1)]),
+    ];
+    for (name, setup) in starts {
+        cases.push((
+            format!("refute_on_{name}_vs_stale_suspect_and_states"),
+            RScript {
+                n: 3,
+                setup,
+                events: vec![LEv::Refute(1, 1), LEv::Suspect(1, 0), LEv::Merge(vec![up(1, 'D', 9, 0)]), LEv::Merge(vec![up(1, 'F', 2, 0)])],
+                orders: vec![vec![0, 1, 2, 3], vec![1, 2, 0, 3], vec![3, 2, 1, 0]],
+            },
+        ));
+    }
+    // a ping ack (mark_healthy) makes the member Healthy right before the refutation arrives
+    cases.push((
+        "mark_healthy_then_refute_then_stale_suspect".into(),
+        RScript {
+            n: 3,
+            setup: vec![base('D')],
+            events: vec![LEv::MarkHealthy(1), LEv::Refute(1, 1), LEv::Suspect(1, 0), LEv::Tick],
+            orders: vec![vec![0, 1, 2, 3], vec![2, 0, 3, 1], vec![1, 2, 3, 0]],
+        },
+    ));
+    // two announcements in a row (1 -> 2 -> 3), the older one and suspicions of both older incarnations late
+    cases.push((
+        "second_announcement_vs_older_announcement_and_suspicions".into(),
+        RScript {
+            n: 4,
+            setup: vec![LEv::Merge(vec![up(2, 'H', 3, 1), up(0, 'H', 1, 0)])],
+            events: vec![LEv::Refute(2, 3), LEv::Refute(2, 2), LEv::Suspect(2, 1), LEv::Suspect(2, 2), LEv::Merge(vec![up(2, 'F', 50, 2), up(2, 'D', 8, 1)]), LEv::SyncTime(30)],
+            orders: vec![vec![0, 1, 2, 3, 4, 5], vec![1, 2, 3, 4, 5, 0], vec![2, 1, 3, 0, 5, 4], vec![4, 3, 5, 1, 0, 2]],
+        },
+    ));
+    // two members refuting at once, stale news about both interleaved
+    cases.push((
+        "two_members_refute_stale_news_interleaved".into(),
+        RScript {
+            n: 2,
+            setup: vec![LEv::Merge(vec![up(0, 'H', 2, 0), up(1, 'D', 5, 1)])],
+            events: vec![LEv::Refute(0, 1), LEv::Refute(1, 2), LEv::Suspect(0, 0), LEv::Suspect(1, 1), LEv::Merge(vec![up(0, 'F', 6, 0), up(1, 'F', 6, 1)])],
+            orders: vec![vec![0, 1, 2, 3, 4], vec![4, 3, 2, 1, 0]],
+        },
+    ));
+    // a member nobody knows: refute answers false and records nothing (no oracle applies; model only)
+    cases.push((
+        "refute_on_unknown_member".into(),
+        RScript { n: 1, setup: vec![base('H')], events: vec![LEv::Refute(3, 1), LEv::Suspect(3, 0)], orders: vec![vec![0, 1]] },
+    ));
+    for (name, sc) in cases {
+        rcase(rep, m, stream, &name, &sc, names);
+        rep.hit("rvs.directed_scripts");
+    }
+}
+
+/// seeded scripts: 1-3 members, each left in a random health (merged or written by a local event) by
+/// the common setup, then refute(m, top) and 1-4 pieces of news about lower incarnations per member,
+/// handed to 2-4 replicas in different orders (one replica refutes first, one last)
+fn refute_stream(rep: &mut Report, m: &mut Model, names: &[String], root: &Rng, cases: u64) {
+    let stream = "refute_vs_stale";
+    let mut r = root.fork("refute_vs_stale");
+    for case in 0..cases {
+        let n = 2 + r.below(3) as usize;
+        let members = 1 + r.below(3) as usize;
+        let mut setup: Vec<LEv> = vec![];
+        let mut events: Vec<LEv> = vec![];
+        for mm in 0..members {
+            let inc0 = r.below(3);
+            if !r.chance(1, 12) {
+                setup.push(LEv::Merge(vec![Upd { m: mm, h: r.below(4) as usize, ts: 1 + r.below(6), inc: inc0 }]));
+                match r.below(7) {
+                    0 => setup.push(LEv::Suspect(mm, inc0)),
+                    1 => setup.push(LEv::Fail(mm)),
+                    2 => setup.push(LEv::MarkHealthy(mm)),
+                    3 => {
+                        setup.push(LEv::Suspect(mm, inc0));
+                        setup.push(LEv::MarkHealthy(mm));
+                    }
+                    _ => {}
+                }
+            }
+            if r.chance(1, 10) {
+                continue;
+            }
+            let top = inc0 + 1 + r.below(2);
+            events.push(LEv::Refute(mm, top));
+            for _ in 0..1 + r.below(4) {
+                let j = if r.chance(2, 3) { inc0 } else { r.below(top) };
+                events.push(match r.below(10) {
+                    0..=3 => LEv::Suspect(mm, j),
+                    4..=6 => LEv::Merge(
+                        (0..1 + r.below(2))
+                            .map(|_| Upd { m: mm, h: *r.pick(&[1usize, 1, 2, 2, 3, 0]), ts: r.below(14), inc: if r.chance(2, 3) { j } else { r.below(top) } })
+                            .collect(),
+                    ),
+                    7 => LEv::MarkHealthy(mm),
+                    8 => LEv::Refute(mm, j),
+                    _ => {
+                        if r.chance(1, 2) {
+                            LEv::Tick
+                        } else {
+                            LEv::SyncTime(r.below(12))
+                        }
+                    }
+                });
+            }
+        }
+        let is_ref = |e: &LEv| matches!(e, LEv::Refute(..));
+        let mut orders: Vec<Vec<usize>> = vec![];
+        for rr in 0..n {
+            let mut o: Vec<usize> = (0..events.len()).collect();
+            r.shuffle(&mut o);
+            match rr {
+                0 => o.sort_by_key(|&i| !is_ref(&events[i])), // refutations overtake everything (stable)
+                1 => o.sort_by_key(|&i| is_ref(&events[i])),  // refutations arrive last
+                _ => {}
+            }
+            orders.push(o);
+        }
+        let sc = RScript { n, setup, events, orders };
+        rcase(rep, m, stream, &format!("seeded case {case}"), &sc, names);
+        if case == 0 {
+            rep.sample(json!({"stream": stream, "replicas": n, "setup": sc.setup.iter().map(|e| e.op(0).line()).collect::<Vec<_>>(),
+                "events": sc.events.iter().map(|e| e.op(0).line()).collect::<Vec<_>>(), "orders": sc.orders}));
+        }
+    }
+}
+
+// ---- the same through GossipMembershipManager::handle_gossip
+
+fn mop_stale_for(op: &MOp, m: usize, n: u64) -> bool {
+    match op {
+        MOp::Sync(s, _, b) => *s != m && b.iter().all(|u| u.m != m || u.inc < n),
+        MOp::Suspect(k, i) | MOp::Alive(k, i) => *k != m || *i < n,
+        MOp::AddPeer(_) => true,
+    }
+}
+
+#[derive(Clone, Debug)]
+struct MScript {
+    n: usize,
+    delta: u64,
+    setup: Vec<MOp>,
+    events: Vec<MOp>,
+    orders: Vec<Vec<usize>>,
+}
+
+impl MScript {
+    fn with_events(&self, keep: &[usize]) -> MScript {
+        MScript {
+            events: keep.iter().map(|&i| self.events[i].clone()).collect(),
+            orders: self.orders.iter().map(|o| o.iter().filter_map(|i| keep.iter().position(|k| k == i)).collect()).collect(),
+            ..self.clone()
+        }
+    }
+    fn with_setup(&self, keep: &[usize]) -> MScript {
+        MScript { setup: keep.iter().map(|&i| self.setup[i].clone()).collect(), ..self.clone() }
+    }
+    fn only(&self, gs: &[usize]) -> MScript {
+        MScript { n: gs.len(), orders: gs.iter().map(|&g| self.orders[g].clone()).collect(), ..self.clone() }
+    }
+    fn seq(&self, g: usize) -> Vec<&MOp> {
+        self.setup.iter().chain(self.orders[g].iter().map(|&i| &self.events[i])).collect()
+    }
+}
+
+const MVS_LOCAL: usize = K - 1;
+const MVS_SENDER: usize = K - 2;
+
+/// run an `mgr.alive_vs_stale` script on fresh real managers, with every oracle (no model in here)
+fn mrun(sc: &MScript, names: &[String]) -> RRun {
+    let site = "tensor_chain.gossip.handle_gossip";
+    let mut out = RRun { viol: vec![], lines: vec![vec![]; sc.n], views: vec![], hits: vec![], targets: 0 };
+    let flag = |viol: &mut Vec<(String, String)>, class: &str, what: String| {
+        if !viol.iter().any(|(c, _)| c == class) {
+            viol.push((class.to_string(), what));
+        }
+    };
+    let mut after_setup: Vec<CView> = vec![];
+    for g in 0..sc.n {
+        let mgr = new_mgr(MVS_LOCAL, sc.delta, names);
+        out.lines[g].push((format!("mgr_new {g} {MVS_LOCAL} {}", sc.delta), String::new()));
+        let mut told: [Option<u64>; K] = [None; K];
+        let mut prev = (cview_of_list(&mgr.membership_view(), names), mgr.lamport_time(), mgr.incarnation_rejected_count());
+        for (k, op) in sc.seq(g).into_iter().enumerate() {
+            if k == sc.setup.len() {
+                after_setup.push(prev.0);
+            }
+            op.apply(&mgr, names);
+            let now = (cview_of_list(&mgr.membership_view(), names), mgr.lamport_time(), mgr.incarnation_rejected_count());
+            let at = format!("(manager {g}, step {}: `{}`)", k + 1, op.line(g));
+            for (c, w) in mono_classes(site, "msg", (&prev.0, prev.1), (&now.0, now.1)) {
+                flag(&mut out.viol, &c, format!("{w} {at}"));
+            }
+            if let MOp::Alive(x, i) = op {
+                match prev.0[*x] {
+                    Some(b) if now.2 == prev.2 => {
+                        told[*x] = Some(told[*x].map_or(*i, |t| t.max(*i)));
+                        out.hits.push(format!("mvs.alive.on_{}{}", ["healthy", "degraded", "failed", "unknown"][b.0], if *i > b.2 { "" } else { ".not_higher" }));
+                        let got = now.0[*x].map(|a| a.2);
+                        if got.map_or(true, |v| v < *i) {
+                            flag(
+                                &mut out.viol,
+                                "tensor_chain.gossip.handle_alive/announced_incarnation_dropped",
+                                format!(
+                                    "Alive(member {x}, incarnation {i}) was handled (within max_incarnation_delta {}, rejected counter unchanged) and member {x}, held as {} before, is recorded at incarnation {} afterwards {at}",
+                                    sc.delta,
+                                    reg_txt(prev.0[*x]),
+                                    got.map_or("- (forgotten)".to_string(), |v| v.to_string())
+                                ),
+                            );
+                        }
+                    }
+                    Some(_) => out.hits.push("mvs.alive.rejected_delta".to_string()),
+                    None => out.hits.push("mvs.alive.on_absent".to_string()),
+                }
+            }
+            for mm in 0..K {
+                if let (Some(t), Some(a)) = (told[mm], now.0[mm]) {
+                    if a.2 < t && (a.0 == 1 || a.0 == 2) && now.0[mm] != prev.0[mm] {
+                        flag(
+                            &mut out.viol,
+                            &format!("{site}/degraded_or_failed_at_refuted_incarnation"),
+                            format!("manager {g} handled an Alive announcing incarnation {t} of member {mm}; it now records member {mm} as {} (was {}) {at}", reg_txt(now.0[mm]), reg_txt(prev.0[mm])),
+                        );
+                    }
+                }
+            }
+            prev = now;
+            out.lines[g].push((op.line(g), mgr_answer(&mgr, names)));
+        }
+        if sc.seq(g).len() == sc.setup.len() {
+            after_setup.push(prev.0);
+        }
+        out.views.push((prev.0, prev.1));
+    }
+    let tops = top_refutes(&sc.events, &|e| if let MOp::Alive(m, n) = e { Some((*m, *n)) } else { None }, &|e, m, n| mop_stale_for(e, m, n));
+    for (m, n) in tops {
+        if !(0..sc.n).all(|g| after_setup[g][m].is_some_and(|e| e.2 < n && n - e.2 <= sc.delta)) {
+            continue;
+        }
+        out.targets += 1;
+        let hi = |g: usize| out.views[g].0[m].map(|e| (e.0, e.2));
+        'pairs: for i in 0..sc.n {
+            for j in (i + 1)..sc.n {
+                if hi(i) != hi(j) {
+                    let w = format!(
+                        "managers {i} and {j} started from the same view and handled the same messages (Alive(member {m}, {n}) and Sync / Suspect / Alive messages about incarnations of member {m} below {n}) in different orders; they record member {m} as {} and {}",
+                        reg_txt(out.views[i].0[m]),
+                        reg_txt(out.views[j].0[m])
+                    );
+                    flag(&mut out.viol, &format!("{site}/managers_diverge_on_message_order"), w);
+                    break 'pairs;
+                }
+            }
+        }
+        if let Some(g) = (0..sc.n).find(|&g| hi(g) != Some((0, n))) {
+            let w = format!(
+                "manager {g} held member {m} below incarnation {n}, handled Alive(member {m}, {n}) and otherwise only messages about incarnations below {n}; it records member {m} as {} instead of Healthy at {n}",
+                reg_txt(out.views[g].0[m])
+            );
+            flag(&mut out.viol, &format!("{site}/not_healthy_at_announced_incarnation_after_stale_news"), w);
+        }
+    }
+    out
+}
+
+fn mfails(sc: &MScript, names: &[String], class: &str) -> bool {
+    mrun(sc, names).viol.iter().any(|(c, _)| c == class)
+}
+
+fn mreport(rep: &mut Report, stream: &str, case: &str, sc: &MScript, names: &[String], class: &str) {
+    if rep.violations.iter().filter(|v| v["class"] == class).count() >= 4 {
+        return;
+    }
+    let mut cur = sc.clone();
+    'one: for i in 0..cur.n {
+        let cand = cur.only(&[i]);
+        if mfails(&cand, names, class) {
+            cur = cand;
+            break 'one;
+        }
+    }
+    if cur.n > 2 {
+        'two: for i in 0..cur.n {
+            for j in (i + 1)..cur.n {
+                let cand = cur.only(&[i, j]);
+                if mfails(&cand, names, class) {
+                    cur = cand;
+                    break 'two;
+                }
+            }
+        }
+    }
+    let idx: Vec<usize> = (0..cur.events.len()).collect();
+    let kept = shrink_list(&idx, &mut |keep: &[usize]| mfails(&cur.with_events(keep), names, class));
+    cur = cur.with_events(&kept);
+    let idx: Vec<usize> = (0..cur.setup.len()).collect();
+    let kept = shrink_list(&idx, &mut |keep: &[usize]| mfails(&cur.with_setup(keep), names, class));
+    cur = cur.with_setup(&kept);
+    let run = mrun(&cur, names);
+    let what = run.viol.iter().find(|(c, _)| c == class).map(|(_, w)| w.clone()).unwrap_or_default();
+    let hist: Vec<Value> = (0..cur.n).map(|g| json!(run.lines[g].iter().map(|(l, a)| if a.is_empty() { l.clone() } else { format!("{l}  ->  {a}") }).collect::<Vec<_>>())).collect();
+    let views: Vec<String> = run.views.iter().map(|(v, c)| view_txt(*c, v)).collect();
+    rep.violation_capped(
+        class,
+        &what,
+        json!({"stream": stream, "case": case, "managers": cur.n, "local_node": MVS_LOCAL, "max_incarnation_delta": cur.delta,
+               "history_per_manager": hist, "final_views": views,
+               "steps_before_shrinking": sc.setup.len() + sc.events.len(), "managers_before_shrinking": sc.n}),
+    );
+}
+
+fn mcase(rep: &mut Report, m: &mut Model, stream: &str, case: &str, sc: &MScript, names: &[String]) {
+    let run = mrun(sc, names);
+    let mut live = true;
+    for g in 0..sc.n {
+        for (i, (line, imp)) in run.lines[g].iter().enumerate() {
+            if imp.is_empty() {
+                m.ask(line); // mgr_new
+                continue;
+            }
+            if live {
+                let ans = strip_mgr(&m.ask(line));
+                live = rep.compare(stream, || json!({"case": case, "max_incarnation_delta": sc.delta, "history": run.lines[g][..=i].iter().map(|x| x.0.clone()).collect::<Vec<_>>()}), imp, &ans);
+                if !live {
+                    rep.hit("mvs.real_only_after_divergence");
+                }
+            }
+        }
+    }
+    for h in &run.hits {
+        rep.hit(h);
+    }
+    rep.hit_n("mvs.members_checked_for_order_independence", run.targets as u64);
+    for (class, _) in &run.viol {
+        mreport(rep, stream, case, sc, names, class);
+    }
+    let key = format!("{case}|{}", (0..sc.n).map(|g| run.lines[g].iter().map(|x| x.0.clone()).collect::<Vec<_>>().join("/")).collect::<Vec<_>>().join("||"));
+    rep.case(stream, if run.targets > 0 { Some(&key) } else { None });
+}
+
+fn directed_alive_mgr(rep: &mut Report, m: &mut Model, names: &[String]) {
+    let rt = tokio::runtime::Builder::new_current_thread().build().unwrap();
+    let _guard = rt.enter();
+    let stream = "mgr.alive_vs_stale.directed";
+    let s = MVS_SENDER;
+    let learn = |h: char| MOp::Sync(s, 1, vec![up(2, h, 1, 0)]);
+    let mut cases: Vec<(String, MScript)> = vec![];
+    // the Alive broadcast overtakes the Suspect it answers (node that never suspected) / trails it
+    cases.push((
+        "alive_before_and_after_stale_suspect".into(),
+        MScript { n: 2, delta: 100, setup: vec![MOp::AddPeer(2), learn('H')], events: vec![MOp::Alive(2, 1), MOp::Suspect(2, 0)], orders: vec![vec![0, 1], vec![1, 0]] },
+    ));
+    cases.push((
+        "alive_before_and_after_stale_failed_state_in_a_sync".into(),
+        MScript { n: 2, delta: 100, setup: vec![learn('H')], events: vec![MOp::Alive(2, 1), MOp::Sync(s, 3, vec![up(2, 'F', 7, 0)])], orders: vec![vec![0, 1], vec![1, 0]] },
+    ));
+    for (name, setup) in [
+        ("synced_healthy", vec![learn('H')]),
+        ("synced_degraded", vec![learn('D')]),
+        ("synced_failed", vec![learn('F')]),
+        ("synced_unknown", vec![learn('U')]),
+        ("added_as_peer", vec![MOp::AddPeer(2)]),
+        ("suspected_by_a_peer", vec![learn('H'), MOp::Suspect(2, 0)]),
+    ] {
+        cases.push((
+            format!("alive_on_{name}_vs_stale_suspect_and_syncs"),
+            MScript {
+                n: 3,
+                delta: 100,
+                setup,
+                events: vec![MOp::Alive(2, 1), MOp::Suspect(2, 0), MOp::Sync(s, 2, vec![up(2, 'D', 9, 0), up(1, 'H', 3, 0)]), MOp::Sync(1, 0, vec![up(2, 'F', 2, 0)])],
+                orders: vec![vec![0, 1, 2, 3], vec![1, 2, 0, 3], vec![3, 2, 1, 0]],
+            },
+        ));
+    }
+    // jump limit 2: announcements 1 -> 3 (delta 2, accepted), the older Alive(2) and suspicions late
+    cases.push((
+        "second_announcement_within_the_jump_limit".into(),
+        MScript {
+            n: 3,
+            delta: 2,
+            setup: vec![MOp::Sync(s, 1, vec![up(0, 'H', 4, 1)])],
+            events: vec![MOp::Alive(0, 3), MOp::Alive(0, 2), MOp::Suspect(0, 1), MOp::Suspect(0, 2), MOp::Sync(s, 9, vec![up(0, 'F', 30, 2)])],
+            orders: vec![vec![0, 1, 2, 3, 4], vec![1, 2, 3, 4, 0], vec![4, 2, 0, 3, 1]],
+        },
+    ));
+    // outside the jump limit the Alive is refused and counted (no oracle applies; model only)
+    cases.push((
+        "announcement_outside_the_jump_limit".into(),
+        MScript { n: 1, delta: 1, setup: vec![learn('H')], events: vec![MOp::Alive(2, 3), MOp::Suspect(2, 0), MOp::Alive(3, 1)], orders: vec![vec![0, 1, 2]] },
+    ));
+    for (name, sc) in cases {
+        mcase(rep, m, stream, &name, &sc, names);
+        rep.hit("mvs.directed_scripts");
+    }
+}
+
+fn alive_stream(rep: &mut Report, m: &mut Model, names: &[String], root: &Rng, cases: u64) {
+    let rt = tokio::runtime::Builder::new_current_thread().build().unwrap();
+    let _guard = rt.enter();
+    let stream = "mgr.alive_vs_stale";
+    let mut r = root.fork("mgr.alive_vs_stale");
+    for case in 0..cases {
+        let n = 2 + r.below(3) as usize;
+        let members = 1 + r.below(3) as usize;
+        let delta: u64 = if r.chance(1, 4) { 2 } else { 100 };
+        let mut setup: Vec<MOp> = vec![];
+        let mut events: Vec<MOp> = vec![];
+        for mm in 0..members {
+            let inc0 = r.below(3).min(delta);
+            match r.below(12) {
+                0 => {}
+                1 if inc0 == 0 => setup.push(MOp::AddPeer(mm)),
+                _ => {
+                    setup.push(MOp::Sync(MVS_SENDER, r.below(5), vec![Upd { m: mm, h: r.below(4) as usize, ts: 1 + r.below(6), inc: inc0 }]));
+                    if r.chance(1, 4) {
+                        setup.push(MOp::Suspect(mm, inc0));
+                    }
+                }
+            }
+            if r.chance(1, 10) {
+                continue;
+            }
+            let top = inc0 + 1 + r.below(2);
+            events.push(MOp::Alive(mm, top));
+            for _ in 0..1 + r.below(4) {
+                let j = if r.chance(2, 3) { inc0 } else { r.below(top) };
+                events.push(match r.below(10) {
+                    0..=3 => MOp::Suspect(mm, j),
+                    4..=7 => {
+                        // a Sync from the outside sender or from another member, carrying old states of mm
+                        let from = if members > 1 && r.chance(1, 3) { (mm + 1 + r.below(members as u64 - 1) as usize) % members } else { MVS_SENDER };
+                        MOp::Sync(
+                            from,
+                            r.below(8),
+                            (0..1 + r.below(2))
+                                .map(|_| Upd { m: mm, h: *r.pick(&[1usize, 1, 2, 2, 3, 0]), ts: r.below(14), inc: if r.chance(2, 3) { j } else { r.below(top) } })
+                                .collect(),
+                        )
+                    }
+                    8 => MOp::Alive(mm, j),
+                    _ => MOp::AddPeer(mm),
+                });
+            }
+        }
+        let is_alive = |e: &MOp| matches!(e, MOp::Alive(..));
+        let mut orders: Vec<Vec<usize>> = vec![];
+        for g in 0..n {
+            let mut o: Vec<usize> = (0..events.len()).collect();
+            r.shuffle(&mut o);
+            match g {
+                0 => o.sort_by_key(|&i| !is_alive(&events[i])),
+                1 => o.sort_by_key(|&i| is_alive(&events[i])),
+                _ => {}
+            }
+            orders.push(o);
+        }
+        let sc = MScript { n, delta, setup, events, orders };
+        mcase(rep, m, stream, &format!("seeded case {case}"), &sc, names);
+        if case == 0 {
+            rep.sample(json!({"stream": stream, "managers": n, "setup": sc.setup.iter().map(|e| e.line(0)).collect::<Vec<_>>(),
+                "events": sc.events.iter().map(|e| e.line(0)).collect::<Vec<_>>(), "orders": sc.orders}));
+        }
+    }
+}
+
 fn main() {
     let args = parse_args();
     let mut rep = Report::new(
@@ -1126,6 +1952,11 @@ fn main() {
         "cluster.deliver.suspect", "cluster.deliver.suspect_about_self", "cluster.deliver.alive", "cluster.deliver.alive.refuted",
         "cluster.ping_ack.success", "cluster.ping_ack.failure", "cluster.ping_ack.marked_healthy", "cluster.member_recorded_failed",
         "cluster.exchange_checked",
+        "rvs.refute.on_healthy", "rvs.refute.on_degraded", "rvs.refute.on_failed", "rvs.refute.on_unknown", "rvs.refute.on_absent",
+        "rvs.refute.on_healthy.not_higher", "rvs.members_checked_for_order_independence",
+        "mvs.alive.on_healthy", "mvs.alive.on_degraded", "mvs.alive.on_failed", "mvs.alive.on_unknown", "mvs.alive.on_absent",
+        "mvs.alive.rejected_delta", "mvs.members_checked_for_order_independence",
+        "cluster.deliver.alive.member_seen_healthy",
     ]
     .iter()
     .map(|s| s.to_string())
@@ -1145,7 +1976,9 @@ fn main() {
         rep.note(&format!("hlc.directed: {:.2}s", t0.elapsed().as_secs_f64()));
     }
     directed_unsorted(&mut rep, &mut m, &names);
+    directed_refute(&mut rep, &mut m, &names);
     directed_manager(&mut rep, &mut m, &names);
+    directed_alive_mgr(&mut rep, &mut m, &names);
     {
         let rt = tokio::runtime::Builder::new_current_thread().build().unwrap();
         let _guard = rt.enter();
@@ -1273,6 +2106,7 @@ fn main() {
                 }
                 let h = hist.clone();
                 mono_oracles(&mut rep, "tensor_chain.gossip", op.name(), (&before.0, before.1), (&after.0, after.1), &|| json!({"history": h}));
+                refute_oracle(&mut rep, &op, &before.0, &after.0, &|| json!({"stream": "lww.random", "history": h}));
                 // the model is asked until the first disagreement; the real replicas and every
                 // oracle on them keep running to the end of the history
                 if ok {
@@ -1307,6 +2141,14 @@ fn main() {
         rep.note(&format!("unsorted_batches: {:.1}s", t0.elapsed().as_secs_f64()));
     }
 
+    // ---------------------------------------------------------------- a refutation against old news, in every order
+    {
+        let t0 = std::time::Instant::now();
+        refute_stream(&mut rep, &mut m, &names, &root, 1500 * scale);
+        alive_stream(&mut rep, &mut m, &names, &root, 800 * scale);
+        rep.note(&format!("refute_vs_stale + mgr.alive_vs_stale: {:.1}s", t0.elapsed().as_secs_f64()));
+    }
+
     // ---------------------------------------------------------------- hybrid logical clock histories
     {
         let t0 = std::time::Instant::now();
@@ -1334,6 +2176,7 @@ fn main() {
                 let after = (cview(&reps[rr], &names), reps[rr].lamport_time());
                 let h = hist.clone();
                 mono_oracles(rep, "tensor_chain.gossip", op.name(), (&before.0, before.1), (&after.0, after.1), &|| json!({"history": h}));
+                refute_oracle(rep, &op, &before.0, &after.0, &|| json!({"stream": "lww.system", "history": h}));
                 if !matches!(op, Op::Merge(..) | Op::UpdateLocal(..)) {
                     rep.hit(&format!("{}.{}", op.name(), imp.starts_with("true")));
                 }
@@ -1549,6 +2392,7 @@ fn exhaustive_local(rep: &mut Report, m: &mut Model, names: &[String], maxlen: u
                 let after = (cview(&reps[0], names), reps[0].lamport_time());
                 let h = hist.clone();
                 mono_oracles(rep, "tensor_chain.gossip", op.name(), (&before.0, before.1), (&after.0, after.1), &|| json!({"history": h}));
+                refute_oracle(rep, op, &before.0, &after.0, &|| json!({"stream": "exh.local", "history": h}));
                 seen.extend(emitted_real(op, &imp, &after.0));
                 let ans = m.ask(&line);
                 lines_sent += 1;
@@ -2026,6 +2870,8 @@ struct Clu<'a> {
     last_sync: Vec<Option<GMsg>>,
     /// largest incarnation member m itself has put into an Alive
     announced: Vec<u64>,
+    /// told[r][m]: largest incarnation of member m an Alive handled (and not refused) by node r announced
+    told: Vec<[Option<u64>; K]>,
     viol: Vec<(String, String)>,
     nsteps: usize,
     /// model lines + implementation answers of the primitive steps of the last `run`
@@ -2071,6 +2917,7 @@ impl<'a> Clu<'a> {
             net: vec![],
             last_sync: vec![None; cfg.n],
             announced: vec![0; K],
+            told: vec![[None; K]; cfg.n],
             viol: vec![],
             nsteps: 0,
             trace: vec![],
@@ -2130,6 +2977,7 @@ impl<'a> Clu<'a> {
         }
         self.nsteps += 1;
         let before = self.view(r);
+        let rej_before = self.nodes[r].incarnation_rejected_count();
         let order: Vec<usize> = self.nodes[r].membership_view().iter().map(|s| idx_of(names, &s.node_id)).collect();
         let opname = match op {
             COp::AddPeer(_, p) => {
@@ -2169,6 +3017,36 @@ impl<'a> Clu<'a> {
         // ---- oracles on the real managers' own outputs
         for (c, w) in mono_classes("tensor_chain.gossip.cluster", opname, (&before.0, before.1), (&after.0, after.1)) {
             self.flag(&c, format!("{w} {at}"));
+        }
+        // an Alive that was not refused by the jump limit leaves a known member at >= the announced
+        // incarnation, whatever health the node saw it in (mgr_alive_records_announced) ...
+        if let COp::Deliver(_, GMsg::Alive(m, i)) = op {
+            if let Some(b) = before.0.get(*m).copied().flatten() {
+                if self.nodes[r].incarnation_rejected_count() == rej_before {
+                    self.told[r][*m] = Some(self.told[r][*m].map_or(*i, |t| t.max(*i)));
+                    if b.0 == 0 && *i > b.2 {
+                        self.hits.push("cluster.deliver.alive.member_seen_healthy");
+                    }
+                    let got = after.0[*m].map(|a| a.2);
+                    if got.map_or(true, |v| v < *i) {
+                        self.flag(
+                            "tensor_chain.gossip.cluster/announced_incarnation_dropped",
+                            format!("node {r} handled Alive(member {m}, incarnation {i}) (not refused by the jump limit) while holding {} and records member {m} at incarnation {} afterwards {at}", txt(Some(b)), got.map_or("-".to_string(), |v| v.to_string())),
+                        );
+                    }
+                }
+            }
+        }
+        // ... and no later step records the member Degraded / Failed below that incarnation
+        for m in 0..K {
+            if let (Some(t), Some(a)) = (self.told[r][m], after.0[m]) {
+                if a.2 < t && (a.0 == 1 || a.0 == 2) && after.0[m] != before.0[m] {
+                    self.flag(
+                        "tensor_chain.gossip.cluster/degraded_or_failed_at_refuted_incarnation",
+                        format!("node {r} has handled an Alive announcing incarnation {t} of member {m}; it now records member {m} as {} (was {}) {at}", txt(after.0[m]), txt(before.0[m])),
+                    );
+                }
+            }
         }
         for g in &out {
             match g {
@@ -2547,6 +3425,41 @@ fn cluster_directed(rep: &mut Report, m: &mut Model, names: &[String], rt: &toki
         ]);
         cases.push(("incarnation_jump_limit", CCfg { n: 3, k: 20, t0: false, delta: 1 }, ops));
     }
+    // the Alive a suspected node broadcasts overtakes the Suspect it answers: node 0 (never suspected,
+    // sees member 1 Healthy) gets Alive then Suspect, node 2 Suspect then Alive, node 3 raised the suspicion
+    {
+        let mut ops = full(4);
+        ops.extend([
+            COp::Exchange(1, 0),
+            COp::Exchange(1, 2),
+            COp::Exchange(1, 3),
+            COp::SuspectNode(3, 1),
+            COp::Deliver(1, GMsg::Suspect(1, 0)),
+            COp::Deliver(0, GMsg::Alive(1, 1)),
+            COp::Deliver(0, GMsg::Suspect(1, 0)),
+            COp::Deliver(2, GMsg::Suspect(1, 0)),
+            COp::Deliver(2, GMsg::Alive(1, 1)),
+            COp::Deliver(3, GMsg::Alive(1, 1)),
+            COp::Exchange(0, 2),
+            COp::Exchange(0, 3),
+        ]);
+        cases.push(("alive_overtakes_the_suspect_it_answers", CCfg { n: 4, k: 20, t0: false, delta: 100 }, ops));
+    }
+    // the run of the Lean witness `stale_suspicion_stays_pending_witness` (observation): the stale Suspect
+    // after the Alive is refused by the CRDT but stays pending, the next expiring round fails the member
+    {
+        let mut ops = full(3);
+        ops.extend([
+            COp::Exchange(1, 0),
+            COp::Exchange(1, 2),
+            COp::SuspectNode(2, 1),
+            COp::Deliver(1, GMsg::Suspect(1, 0)),
+            COp::Deliver(0, GMsg::Alive(1, 1)),
+            COp::Deliver(0, GMsg::Suspect(1, 0)),
+            COp::Round(0),
+        ]);
+        cases.push(("stale_suspect_after_alive_stays_pending", CCfg { n: 3, k: 20, t0: true, delta: 100 }, ops));
+    }
     for (name, cfg, ops) in cases {
         let mut it = ops.clone().into_iter();
         // deliveries of a directed script name the message they expect; a `Deliver` of a Sync is
@@ -2562,6 +3475,22 @@ fn cluster_directed(rep: &mut Report, m: &mut Model, names: &[String], rt: &toki
             })
         });
         rep.hit("cluster.directed_scripts");
+        if name == "stale_suspect_after_alive_stays_pending" {
+            let mut c = Clu::new(cfg, names, rt);
+            for op in &done {
+                c.step(op);
+            }
+            if let Some((2, _, inc)) = c.view(0).0[1] {
+                rep.observe(json!({
+                    "what": "GossipMembershipManager::handle_suspect records a pending suspicion also when LWWMembershipState::suspect refused it as stale (the member had already announced a higher incarnation through Alive), and expire_suspicions fails the member at whatever incarnation is recorded when the timer runs out (PendingSuspicion::incarnation is not consulted): a node that handles Alive(m, 1) BEFORE the Suspect(m, 0) it answers records m Failed at incarnation 1 at the next expiring round, a node that handles them in the other order keeps m Healthy at 1 (the Alive clears the suspicion). Failed at 1 <= announced 1, and the expiry is a local fail event, so no clause of C17 is violated; Lean: stale_suspicion_stays_pending_witness; mgr_alive_wins_over_stale_news excludes rounds in which a suspicion of m expires",
+                    "script": done.iter().map(cop_txt).collect::<Vec<_>>(),
+                    "node_0_records_member_1": format!("F:{inc}"),
+                    "member_1_announced": c.announced[1],
+                    "class_if_counted": "tensor_chain.gossip.expire_suspicions/failed_on_a_suspicion_of_a_refuted_incarnation",
+                    "proposed": "proposed/C17-expire-only-unrefuted-suspicions.diff"
+                }));
+            }
+        }
         if name == "self_view_lags_announced" {
             // replay on fresh managers and look at the two views
             let mut c = Clu::new(cfg, names, rt);
